@@ -159,7 +159,10 @@ def proof_stage(prop, plan, tier, registry):
     res = solve_all(jobs)
     # anything left open gets a second, longer, less crowded attempt before a verdict is drawn
     # (keeps verdicts stable when the machine is busy)
-    retry = [(n, smt, 3 * tmo, cv) for (n, smt, tmo, cv) in jobs if cv and res.get(n, {}).get("result") not in ("unsat", "sat")]
+    # (obligations recorded as open known findings are expected to stay open: no second attempt for them)
+    _known_obl = {k.get("obligation") for k in load_known() if k.get("status") == "open" and k.get("obligation")}
+    retry = [(n, smt, 3 * tmo, cv) for (n, smt, tmo, cv) in jobs if cv and res.get(n, {}).get("result") not in ("unsat", "sat")
+             and norm_label(n) not in _known_obl]
     if retry and len(retry) <= 24 and not os.environ.get("VERIF_NO_RETRY"):
         res2 = solve_all(retry, workers=12)
         for n, r in res2.items():
